@@ -313,7 +313,9 @@ def _do(ctx, op, world, names, model):
         return
     before = snapshot_bn(model)
     ctx.event("do", nodes, op["inplace"])
-    res = model.do([names.L(v) for v in nodes], inplace=op["inplace"])
+    lst = [names.L(v) for v in nodes]
+    arg = [lst, tuple(lst), set(lst), dict.fromkeys(lst).keys(), iter(lst), (y for y in lst)][op["pick"] % 6]   # any iterable of nodes
+    res = model.do(arg, inplace=op["inplace"])
     ctx.checked += 1
     target = model if op["inplace"] else res
     if not op["inplace"] and snapshot_bn(model) != before:
